@@ -160,18 +160,26 @@ def check_selection(ctx, rep, sspec, tspec, excluded, exists, other_process=Fals
         if t_warm != t_cold:
             rep.disagree('warm-cache-differs', inp, {'cold': t_cold['encoder'], 'warm': t_warm['encoder']}, cls)
     # tiny time limit, cache bypassed
+    t_tiny = None
     sel_t = EncoderSelector(mkset())
     sel_t.encoding_timeout = 0.003
     rep.case(dict(inp, cache='tiny-timeout'), nontrivial=total >= 2)
     try:
         mgr_t = sel_t.get_best_assignment_manager(cache=False)
         rep.count('tiny-timeout:selected:' + type(mgr_t.encoder).__name__)
+        # cache=False only bypasses reading: the selection made under the tiny limit is written to the selection cache
+        # and is what later readers get (a freshly computed result too, under another time limit)
+        try:
+            t_tiny = decode_table(mgr_t, vpats)
+        except Exception:
+            t_tiny = None
         if total >= 1:
             encmgr.contract_check(ctx, rep, mgr_t, sspec, tspec, excluded, exists, pats, dict(inp, timeout=0.003),
                                   dict(cls, kind=encmgr.family(mgr_t), selected=True, tiny_timeout=True, encoder=type(mgr_t.encoder).__name__,
                                        imputer=type(getattr(mgr_t.encoder, '_imputer', None)).__name__), limit=60)
     except Exception as e:
-        rep.disagree('selection-failed', dict(inp, stage='tiny-timeout'), {'exc': repr(e)[:300]}, dict(cls, stage='tiny-timeout'))
+        rep.disagree('selection-failed', dict(inp, stage='tiny-timeout'), {'exc': repr(e)[:300]},
+                     dict(cls, stage='tiny-timeout', n_valid_total=min(total, 2), advises_longer_timeout='try increasing timeout' in str(e)))
     # matrix cache
     gen_c = AggregateAssignmentMatrixGenerator(mkset())
     fresh = {p: sorted(encmgr.tup(m) for m in mats) for p, mats in gen_c.get_agg_matrix(cache=False).items()}
@@ -192,7 +200,7 @@ def check_selection(ctx, rep, sspec, tspec, excluded, exists, other_process=Fals
             res = json.loads(out.stdout.strip().split('\n')[-1])
             rep.case(dict(inp, cache='other-process'), nontrivial=total >= 2)
             rep.count('other-process:cache-hit' if res['hit'] else 'other-process:cache-miss')
-            if res['table'] != t_cold:
+            if res['table'] != t_cold and res['table'] != t_tiny:
                 rep.disagree('other-process-differs', inp, {'hit': res['hit'], 'cold': t_cold['encoder'],
                                                             'other': res['table']['encoder']}, cls)
         except Exception as e:
